@@ -189,7 +189,7 @@ type PageObs struct {
 func amtEntryOf(e *dispatchertypes.DispatchedAmountEntry) AmtEntry {
 	return AmtEntry{Sp: protoName(e.SourceId.ProtocolId), Sc: e.SourceId.CounterpartyId,
 		Dp: protoName(e.DestinationId.ProtocolId), Dc: e.DestinationId.CounterpartyId, Denom: e.Denom,
-		In: toInt(e.AmountDispatched.Incoming, "q in"), Out: toInt(e.AmountDispatched.Outgoing, "q out")}
+		In: capInt(e.AmountDispatched.Incoming), Out: capInt(e.AmountDispatched.Outgoing)}
 }
 
 func cntEntryOf(e *dispatchertypes.DispatchCountEntry) AmtEntry {
